@@ -43,6 +43,15 @@ def drive(case, rng, profile, test_ids=True, mutate=False, max_calls=80, script=
     out["stdout"] = run.stdout
     if not run.valid:
         return out
+    # the duplicate probe (impl_run.on_sf) relies on "a refused event changes nothing"; in the
+    # parallel-loop shapes of the known findings D7 the implementation announces an identifier
+    # twice, so a second report of it is legitimately accepted: no probe there
+    try:
+        import shapes
+        if run.dup_in_sf and shapes.parloop_findings(case["prog"]):
+            run.dup_in_sf = False
+    except Exception:  # noqa: BLE001
+        run.dup_in_sf = False
     try:
         # the generated net, before anything runs (names as strings; interned when judged)
         out["net_sig"] = impl_run.net_signature(run, lambda x: x)
